@@ -119,9 +119,9 @@ ADD = {
  "C14": "Session 3: nested labelled blocks (12 outer x 9 inner labels incl. three spellings of the full mask, 1-3 levels). Switches in assignments with compound cases (one assignment per explicit case), run by M1 on every difficulty under every label.",
  "C15": "Session 3: the {zero, non-zero}^3 grid of (mask, velocity, acceleration).",
  "C16": "Session 3: one compiled seed for every (tool, game) pair.",
- "C18": "Session 3: ANM scripts with explicit numbers different from their position (3 numbering variants).",
+ "C18": "Session 3: ANM scripts with explicit numbers different from their position (3 numbering variants). Sub parameter lists with unnamed parameters in front of named ones.",
  "C20": "Session 3: sprite-and-script names with different numbers must be rejected; TH06 call opcode re-declared by the user mapfile with the sub id in the 2nd or 3rd slot (call sugar and raw spelling).",
- "C19": "Session 3: the --output-debug-info file is compared per seed, every bundled file is decompiled under every seed, inputs for unknown / similar enum names and for conflicting call signatures in old ECL.",
+ "C19": "Session 3: the --output-debug-info file is compared per seed, every bundled file is decompiled under every seed, inputs for unknown / similar enum names and for conflicting call signatures in old ECL. Mapfiles that declare the same opcodes in both languages of old-format ECL.",
 }
 for k, v in ADD.items(): checks[k]["text"] += " " + v
 pending = {}
